@@ -683,6 +683,10 @@ func (s *c02State) runCase(m *types.Block, label string, honest bool, probe type
 	})
 
 	before := s.fingerprint(mh, probe)
+	// the signer memo of /repo is a package-level global keyed by the block hash only: Build (acting as the miner)
+	// leaves the MINER's signature in it, and a node with another identity would hand it out as its own confirm.
+	// One process plays several identities here, a real node has one key: clear the memo before every delivery.
+	consensus.VerifSetSigCache(common.Hash{}, nil)
 	verdict, msg := SafeMsg(func() string {
 		err := n.Insert(CloneBlock(m))
 		switch err {
@@ -782,7 +786,20 @@ func (s *c02State) checkStored(m *types.Block, label string, replay interface{})
 			continue
 		}
 		if seen[string(id)] {
-			c.Fail("c02/stored-body-mismatch/confirms", "two stored signatures (miner or confirms) recover to the same deputy ["+label+"]", replay)
+			var ids []string
+			if minerID, err := st.SignerNodeID(); err == nil {
+				ids = append(ids, fmt.Sprintf("miner=%x", minerID[:3]))
+			}
+			for _, x := range st.Confirms {
+				if xid, err := x.RecoverNodeID(hash); err == nil {
+					ids = append(ids, fmt.Sprintf("%x", xid[:3]))
+				}
+			}
+			canon := ""
+			if len(st.Header.SignData) == 65 && bytes.Equal(cf[:], malleate(st.Header.SignData)) {
+				canon = " (the confirm is the other encoding (r, N-s, v^1) of the header signature)"
+			}
+			c.Fail("c02/stored-body-mismatch/confirms", fmt.Sprintf("two stored signatures (miner or confirms) recover to the same deputy: %v%s, self=%x, delivered confirms=%d, delivered SignData=%x stored SignData=%x [%s]", ids, canon, deputynode.GetSelfNodeID()[:3], len(m.Confirms), m.Header.SignData[:4], st.Header.SignData[:4], label), replay)
 		}
 		seen[string(id)] = true
 	}
